@@ -1,6 +1,7 @@
 """C13 - printing a formula and parsing it back gives the same formula."""
 from contracts import grammar as G
 
+from contracts import core as K
 ID = "C13"
 LEVEL = "other"
 TRUSTED = ["A4 pyparsing", "A6 solvers", "reference reading of the grammar (runner/ref_formula.py, written from the documentation)"]
@@ -12,7 +13,7 @@ EXPLANATION = ("Deductive: the token languages the printer must hit (count, isot
 
 
 def units(tier):
-    return [G.L_TOKENS] + G.U_STR_ATOMS
+    return ([G.L_TOKENS] + G.U_STR_ATOMS) + [K.L_ATOM_IDENTITY]
 
 
 def runner_tasks(tier):
